@@ -155,3 +155,57 @@ func VF_C13_Race() {
 		vf.Assert(w.logInvariant(d.DUID), "C06 log invariant of every stored datatype")
 	}
 }
+
+// VF_C12_MultiPack: two clients sync the same two datatypes in one message
+// each, the packs in opposite order.  Requests for different datatypes must not
+// block each other: with holders that finish (no slow holder is modelled here)
+// nobody may be refused for want of a lock, and every pack is served.
+func VF_C12_MultiPack() {
+	vf.Preemptions(1)
+	vf.NoSlowHolders()
+	w := vfNewWorld()
+	w.seedCollection(vfCol, 1)
+	w.seedClient(vfCUIDx, 1, model.ClientType_PERSISTENT)
+	w.seedClient(vfCUIDy, 1, model.ClientType_PERSISTENT)
+	keys := []string{"K1", "K2"}
+	duids := []string{vfDUID, vfDUIDu}
+	for i := range keys {
+		d := w.seedDatatype(duids[i], keys[i], 1, model.TypeOfDatatype_COUNTER, 0)
+		subscribe(d, vfCUIDx, 0, 0)
+		subscribe(d, vfCUIDy, 0, 0)
+	}
+	pack := func(i int, cuid string) *model.PushPullPack {
+		return &model.PushPullPack{Key: keys[i], DUID: duids[i], Type: model.TypeOfDatatype_COUNTER,
+			CheckPoint: &model.CheckPoint{Sseq: 0, Cseq: 1}, Operations: []*model.Operation{vfIncOp(cuid, 1, 1)}}
+	}
+	send := func(cuid string, order []int) (*model.PushPullMessage, error) {
+		msg := &model.PushPullMessage{Header: model.NewMessageHeader(model.RequestType_PUSHPULLS), Collection: vfCol, Cuid: cuid}
+		for _, i := range order {
+			msg.PushPullPacks = append(msg.PushPullPacks, pack(i, cuid))
+		}
+		ctx, cancel := vf.WithCancel(gocontext.Background())
+		defer cancel()
+		return w.svc.ProcessPushPull(ctx, msg)
+	}
+	done := make(chan int, 2)
+	var r1, r2 *model.PushPullMessage
+	var e1, e2 error
+	go func() { r1, e1 = send(vfCUIDx, []int{0, 1}); done <- 1 }()
+	go func() { r2, e2 = send(vfCUIDy, []int{1, 0}); done <- 2 }()
+	<-done
+	<-done
+	vf.Reach("both-returned")
+	vf.Assert(e1 == nil && e2 == nil && r1 != nil && r2 != nil, "C12/C16 every request returns")
+	vf.Assert(len(r1.PushPullPacks) == 2 && len(r2.PushPullPacks) == 2, "C16 every pack is answered")
+	for _, r := range []*model.PushPullMessage{r1, r2} {
+		for _, p := range r.PushPullPacks {
+			vf.Assert(!hasErrBit(p), "C12 requests for different datatypes do not block each other: nobody is refused for want of a lock")
+		}
+	}
+	for i := range keys {
+		vf.Assert(w.logInvariant(duids[i]), "C12/C06 log invariants")
+		vf.Assert(w.datatype(duids[i]).Sseq.End == 2, "C12 both clients' operations are stored for each datatype")
+	}
+	vf.Quiesce()
+	vf.Assert(w.lockFree(1, "K1") && w.lockFree(1, "K2"), "C12 both per-key locks are free afterwards")
+}
